@@ -13,7 +13,6 @@ from ..world import World
 PID = 'C04'
 NSS = ['/', '/a', '/b', '/zzz']
 KICK = object()
-CRASH = 'application connect handler fault'
 
 HANDLED = ['/', '/a']
 
@@ -27,9 +26,6 @@ def decision_st():
         st.just({'d': 'false'}),
         # the handler disconnects the client it is asked about, and returns
         st.just({'d': 'kick'}),
-        # the handler fails (an application fault): whatever the server
-        # makes of it, what the client was told and the server's books agree
-        st.just({'d': 'crash'}),
         st.fixed_dictionaries({'d': st.just('raise'),
                                'args': st.lists(val, max_size=4)}))
 
@@ -56,15 +52,6 @@ def ops_st(n_ops):
         st.fixed_dictionaries({'op': st.just('bcast'),
                                'ns': st.integers(0, 3)}),
         st.fixed_dictionaries({'op': st.just('emit_to'), 's': ci}),
-        # a connected client sends an ordinary EVENT that is named like a
-        # life-cycle event: it is not a connection request and not an end
-        st.fixed_dictionaries({'op': st.just('reserved_ev'), 'c': ci,
-                               'name': st.sampled_from(['connect',
-                                                        'disconnect']),
-                               'args': st.lists(S.leaves_st(
-                                   with_bytes=False), max_size=2),
-                               'id': st.one_of(st.none(),
-                                               st.integers(0, 5))}),
     ), min_size=4, max_size=n_ops)
 
 
@@ -114,8 +101,6 @@ def build(case, w, log):
             return False
         if d['d'] == 'kick':
             return KICK if kick_ok(case) else None
-        if d['d'] == 'crash':
-            raise RuntimeError(CRASH)
         raise socketio.exceptions.ConnectionRefusedError(*d['args'])
 
     def on_connect(ns, sid, environ, auth=NO):
@@ -247,10 +232,7 @@ RULE = ('Model-based stateful testing over configurations always_connect x '
         'server.disconnect, transport loss, broadcasts and to-sid emits, with '
         'generated connect decisions (accept None/True, return False, raise '
         'ConnectionRefusedError with 0-4 JSON args, disconnect the client '
-        'itself, fail with another exception - then what the client was '
-        "told and the server's books must agree), and with ordinary "
-        'EVENTs named connect / disconnect from connected clients. '
-        'Oracle: lifecycle model '
+        'itself). Oracle: lifecycle model '
         '(handler once per admitted request with the auth payload, answer '
         'frames exactly as documented, fresh sids, no membership after a '
         'refusal, exactly one disconnect invocation per accepted connection '
@@ -435,29 +417,6 @@ def _run(case, w):
                 hsid = None
             if d['d'] == 'kick' and not kick_ok(case):
                 d = {'d': 'accept'}
-            if d['d'] == 'crash':
-                w.h.swallowed[:] = [e for e in w.h.swallowed
-                                    if CRASH not in repr(e)]
-                types = [p['type'] for p in pkts]
-                told = types == [wire.CONNECT] and ci is not None
-                if told:
-                    # the client was told it is connected: it is
-                    d = {'d': 'accept'}
-                    labels['connect_handler_fault_accepted'] = True
-                elif any(p['nsp'] != ns for p in pkts) or types not in (
-                        [], [wire.CONNECT_ERROR],
-                        [wire.CONNECT, wire.DISCONNECT]):
-                    raise Violation('crash-frames', repr(pkts))
-                else:
-                    # the client was not told it is connected: it is not
-                    if ci is not None:
-                        w.clients[ci]['alive'] = False
-                        w.clients[ci]['refused'] = True
-                    refused_sids.append((hsid, ns, t))
-                    check_dead(hsid, ns, 'connect handler failed,')
-                    labels['connect_handler_fault_refused'] = True
-                    labels['nontrivial'] = True
-                    continue
             if d['d'] == 'kick':
                 # the handler ended the connection itself: a DISCONNECT is
                 # the server's last word (after the CONNECT it had already
@@ -563,27 +522,6 @@ def _run(case, w):
                     disc_expected[c['sid']] = {R.TRANSPORT_ERROR}
                     ended.append((c['sid'], c['ns'], t))
             w.lose(t)
-        elif k == 'reserved_ev':
-            lv = w.live()
-            if not lv:
-                continue
-            c = w.clients[lv[op['c'] % len(lv)]]
-            nlog = len(log)
-            w.recv_all()
-            w.send(c['t'], wire.EVENT, c['ns'], op['id'],
-                   [op['name']] + list(op['args']))
-            w.h.settle()
-            if log[nlog:]:
-                raise Violation('lifecycle-handler-run-by-event',
-                                'EVENT %r from a connected client ran %r'
-                                % ([op['name']] + list(op['args']),
-                                   log[nlog:]))
-            w.h.swallowed[:] = []
-            if not sio.manager.is_connected(c['sid'], c['ns']):
-                raise Violation('event-ended-connection', op['name'])
-            w.recv_all()
-            labels['event_named_like_lifecycle_event'] = True
-            labels['nontrivial'] = True
         elif k == 'bcast':
             bcast(NSS[op['ns']], step)
         elif k == 'emit_to':
